@@ -25,7 +25,7 @@ from puresnmp import V3, Auth, Client, Priv
 
 PROP = "C14"
 LEVEL = "exploration"
-SHARDS = {"quick": 4, "thorough": 16}
+SHARDS = {"quick": 8, "thorough": 16}
 TIME_CAP = {"quick": 55, "thorough": 900}
 MAX_ENUM = {"quick": 400, "thorough": 3000}
 N_SETS = {"quick": 60, "thorough": 1200}
@@ -233,6 +233,13 @@ def execute(mode, ops, prefix, rng):
     if CLOCK_MODE[0] == "stepping":
         # every read advances: concurrent operations carry DIFFERENT request ids
         rig.env.CLOCK.stepping(lambda: 1.0)
+    elif CLOCK_MODE[0] == "ticking":
+        # the second ticks over now and then: SOME concurrent operations share a
+        # request id and others do not
+        import random as _random
+
+        tick = _random.Random(len(ops) * 7919 + len(mode))
+        rig.env.CLOCK.stepping(lambda: 1.0 if tick.random() < 0.3 else 0.0)
     # "frozen": all operations start within the same second and carry the SAME
     # request id (ids are int(time())), which is what happens in real use
     loop = asyncio.new_event_loop()
@@ -375,6 +382,15 @@ def run(R):
         k += 1
         if R.mine(k):
             explore(R, mode, ops, MAX_ENUM[R.tier], 30, k, clock="frozen")
+        if len(ops) >= 3:
+            k += 1
+            if R.mine(k):
+                explore(R, mode, ops, MAX_ENUM[R.tier] // 2, 20, k, clock="ticking")
+    for mode, ops in (("v3-primed", ("get", "get", "get", "set")), ("v3-primed", ("get", "getnext", "get")), ("v2c", ("get", "get", "get", "getnext")), ("v3-fresh", ("get", "get", "get", "get"))):
+        k += 1
+        if R.mine(k):
+            explore(R, mode, ops, MAX_ENUM[R.tier] // 2, 20, k, clock="ticking")
+            R.mon["ticking_clock_sets"] += 1
     # one operation is cancelled by its caller while the others are in flight
     for mode, ops in (("v2c", ("get", "walk", "set")), ("v3-fresh", ("get", "get", "set")), ("v3-fresh", ("walk9", "get")), ("v3-primed", ("get", "walk", "set")), ("v3-two-clients", ("get", "set", "getnext"))):
         for cancel_op in range(len(ops)):
@@ -410,7 +426,7 @@ def run(R):
         nops = rng.choice((2, 2, 3, 3, 4, 5, 6))
         ops = tuple(rng.choice(OPKINDS) for _ in range(nops))
         v3 = mode.startswith("v3")
-        explore(R, mode, ops, MAX_ENUM[R.tier] // (8 if v3 else 1), 12 if v3 else 60, i, clock=("stepping", "frozen")[(i // len(modes)) % 2])
+        explore(R, mode, ops, MAX_ENUM[R.tier] // (8 if v3 else 1), 12 if v3 else 60, i, clock=("stepping", "frozen", "ticking")[(i // len(modes)) % 3])
 
 
 def replay(R, v):
